@@ -213,9 +213,20 @@ def applyStepS (cw : Nat â†’ Nat) (st : STerm) (raw : Bytes) (toks : List (Tok Ã
 def gcellStr (c : GCell) : String :=
   toString c.ch ++ "," ++ hexOrDash c.text ++ "," ++ toString c.width ++ "," ++ b01 c.cont ++ "," ++ styStr c.sty
 
+/-- `StyledLine(x, w, y)` of a grid row for a fixed family of sub-ranges (the harness asks the
+    real terminal for the same ones): runs as `sty;hex|-;rune;width` joined by `+`, ranges by `/` -/
+def gSubRanges (r : GRow) : String :=
+  let W := r.length
+  let rs : List (Nat Ã— Nat) := [(0, W), (1, W - 1), (1, W - 2), (2, 1), (2, 2), (W / 2, W - W / 2), (W / 3, W / 2)]
+  "/".intercalate (rs.map fun (x, w) =>
+    if x + w > W âˆ¨ w = 0 then "x" else
+    let sp := (r.styledLine x (some w)).1
+    if sp.isEmpty then "-" else "+".intercalate (sp.map fun s =>
+      styStr s.span.sty ++ ";" ++ hexOrDash s.span.text ++ ";" ++ toString s.span.rune ++ ";" ++ toString s.span.width))
+
 def qrowsOf (t : GTerm) : Array String :=
   ((t.main.rows ++ t.alt.rows).map fun r =>
-    (if r.isEmpty then "-" else "_".intercalate (r.map gcellStr)) ++ " " ++ hexOrDash r.ansi).toArray
+    (if r.isEmpty then "-" else "_".intercalate (r.map gcellStr)) ++ " " ++ hexOrDash r.ansi ++ " " ++ gSubRanges r).toArray
 
 def rowsOf (t : Term) : Array String :=
   ((t.main.grid.map rowStr) ++ (t.alt.grid.map rowStr)).toArray
